@@ -144,6 +144,10 @@ Definition second_round_facts : bool :=
   (* paloma: the version gate compares major.minor and then the versions with golang.org/x/mod/semver
      (any other comparison is an unknown shape for the translator), returns early without a completed
      upgrade, prefixes the upgrade name with v *)
+  (* every recover the classes `recovered` rest on is EFFECTIVE: recover() is called directly by the
+     deferred function (a recover() in a helper called from a deferred closure returns nil) *)
+  Gen.C09.skyway_endblocker_recover_is_effective && Gen.C09.skyway_module_endblock_recover_is_effective &&
+  Gen.C09.deploy_compass_recover_is_effective && Gen.C09.valset_jail_recover_is_effective && Gen.C09.recovered_sites_have_effective_recover &&
   Gen.C09.version_gate_compares_semver && Gen.C09.version_gate_skips_without_upgrade && Gen.C09.version_gate_adds_v_prefix.
 
 Theorem second_round_facts_hold_proof : second_round_facts = true.
